@@ -213,7 +213,7 @@ class Builder:
         """Create a qubit register."""
         name, size = sexpression.args
         size = self.build(size, context, gate_context)  # Resolve let-constants
-        return Register(name, size)
+        return Register(name, as_integer(size))
 
     def build_map(self, sexpression, context, gate_context):
         args = list(sexpression.args)
@@ -242,18 +242,18 @@ class Builder:
             index = self.build(
                 src_index, context
             )  # This may be either an integer or defined parameter.
-            return NamedQubit(name, src, index)
+            return NamedQubit(name, src, as_integer(index))
         if len(args) == 5:
             # Mapping a slice of a register
             name, src_name, src_start, src_stop, src_step = args
             # These may be either integers, None, or let constants
-            start = self.build(src_start, context, gate_context)
+            start = as_integer(self.build(src_start, context, gate_context))
             if start is None:
                 start = 0
-            stop = self.build(src_stop, context, gate_context)
+            stop = as_integer(self.build(src_stop, context, gate_context))
             if stop is None:
                 stop = src.size
-            step = self.build(src_step, context, gate_context)
+            step = as_integer(self.build(src_step, context, gate_context))
             if step is None:
                 step = 1
             return Register(name, alias_from=src, alias_slice=slice(start, stop, step))
